@@ -32,6 +32,8 @@ func runC08(c *Check, tier string) {
 	useFamily(c, "R08j", famRestore, 20)
 	// what fills the local tier and what is stored for others is whole, published once, and no write error is lost
 	useFamily(c, "R08k", famStore, 20)
+	ruleCommitOnlyAfterCopy(c, "R08l")
+	ruleNoSharedReaderFromSingleflight(c, "R08m")
 	// a restore on the second machine reports the blobs it could not fetch
 	shareRule(c, "R08i", "an error channel whose sends never block (select/default) has room for at least one error (same obligation as R04d)", 1, "R04d", func(sub *Check) { ruleR04d(sub) }, func(k string) bool { return strings.Contains(k, "output/handlers") || strings.Contains(k, "caching") })
 }
